@@ -7,7 +7,7 @@ from ..oracle.htmlnorm import normalize
 from . import c03
 
 # writer switches for the input classes of the recorded round-trip findings
-RT_EXCLUDES = ['charref', 'dest_escape', 'empty_item', 'empty_atx_closing', 'cont_indent_marker']
+RT_EXCLUDES = ['charref', 'dest_escape', 'empty_item', 'cont_indent_marker']
 
 
 def md(text, nw):
